@@ -26,7 +26,7 @@ RULE = ("multi-season bundles (2-5 seasons, off-season skipped) with events plac
         "non-trivial = season k-1 left the soil water different from the configured initial content; distinct = distinct "
         "(configuration signature, k)")
 ASSUMPTIONS = ["inputs that legitimately differ between M and R_k are excluded: CO2(constant_conc=True) without an explicit concentration "
-               "(means 'the first simulated year'), 'Variable' water tables, SwitchGDD=1 (calendar conversion documented as a mean over the whole window)"]
+               "(means 'the first simulated year'), 'Variable' water tables and step-wise tables that could stand inside the profile or meet an 'FC' initial content (replaced by their first observation; step-wise tables below the profile are kept), SwitchGDD=1 (calendar conversion documented as a mean over the whole window)"]
 PROFILE = {"n_seasons": [2, 2, 3, 3, 4, 5], "off_season_p": 0.0, "end_kinds": ["after", "after", "eoy", "mid"],
            "irr_methods": [0, 1, 2, 3, 4, 4, 5], "events_per_year": 2.5, "bunds": 0.3, "field_p": 0.5, "gw": 0.2,
            "allow_co2_first_year": False, "start_rel": ["at", "before", "before"], "switchgdd_p": 0.0, "calendar_crop_p": 0.6}
